@@ -89,6 +89,23 @@ def strategy(tier):
             else:
                 c["bound_form"] = "list"
         c["lb"], c["ub"], c["start"] = lo, hi, start
+        # a one-sided box: only lb (ub left at its default or passed as None) or only ub
+        if mode == "box" and not m.get("catalogue") and draw(st.integers(0, 3)) == 0:
+            side = draw(st.sampled_from(["lb-only", "lb-ub-None", "ub-only", "ub-lb-None"]))
+            k = draw(st.integers(0, len(tp) - 1))
+            v = c["setup"]["theta"][m["params"].index(tp[k])]
+            # make the given side active: the generating value lies beyond it, the start inside
+            if side.startswith("lb"):
+                lo[k] = S.sig(1.25 * v, 4)
+                start = [max(s0, S.sig(1.02 * l, 4)) for s0, l in zip(start, lo)]
+                start[k] = S.sig(1.6 * v, 4)
+            else:
+                hi[k] = S.sig(0.8 * v, 4)
+                start = [min(s0, S.sig(0.98 * h, 4)) for s0, h in zip(start, hi)]
+                start[k] = S.sig(0.55 * v, 4)
+            c["one_sided"] = side
+            c["lb"], c["ub"], c["start"] = lo, hi, start
+            c["bound_form"] = "list"
         return c
     return case()
 
@@ -101,6 +118,19 @@ def _ref_cost_at(case, y, free):
     if (yhat <= 1e-9).any() and case["loss"] not in ("Square", "Normal"):
         raise Inconclusive("prediction not positive")
     return lossgen.ref_cost(case, y, yhat)
+
+
+def _fit_one_sided(case, key, obj, start, lb_arg, ub_arg, side):
+    if True:
+        if side == "lb-only":
+            xhat = call(key + "/fit", case, obj.fit, start.copy(), lb_arg)
+        elif side == "lb-ub-None":
+            xhat = call(key + "/fit", case, obj.fit, start.copy(), lb_arg, None)
+        elif side == "ub-only":
+            xhat = call(key + "/fit", case, obj.fit, start.copy(), ub=ub_arg)
+        else:
+            xhat = call(key + "/fit", case, obj.fit, start.copy(), None, ub_arg)
+    return xhat
 
 
 def oracle(case, rec):
@@ -123,7 +153,23 @@ def oracle(case, rec):
     elif bf == "int_lb_list" and all(float(v) == int(v) for v in case["lb"]):
         lb_arg = [int(v) for v in case["lb"]]
     rec.label("bounds:" + bf)
-    xhat = call(key + "/fit", case, obj.fit, start.copy(), lb_arg, ub_arg)
+    side = case.get("one_sided")
+    if side:
+        rec.label("box:" + side)
+        try:
+            xhat = _fit_one_sided(case, key, obj, start, lb_arg, ub_arg, side)
+        except PropertyViolation as v:
+            if "IntegrationError" in v.key:
+                # on the open side the optimiser may try parameter values (negative rates) where the ODE cannot be integrated:
+                # outside the domain the statement is about
+                raise Inconclusive("one-sided box: optimiser left the integrable region")
+            raise
+        if side.startswith("lb"):
+            ub = np.full(len(lb), np.inf)
+        else:
+            lb = np.full(len(ub), -np.inf)
+    else:
+        xhat = call(key + "/fit", case, obj.fit, start.copy(), lb_arg, ub_arg)
     xhat = np.asarray(xhat, float)
     if xhat.shape != start.shape:
         raise PropertyViolation(key + "/shape", "fit returned shape %s for %d free parameters" % (xhat.shape, len(start)), case)
